@@ -223,11 +223,11 @@ def validate(scns, logs, twins=None, *, parallel=10, stats=None, conformance=Tru
     if n == 0:
         return bad, drift
     idx = list(range(n))
-    # bounded data modules (more runs rather than bigger ones): at most 300 executions and about 2500 logged lines each
+    # bounded data modules (more runs rather than bigger ones): at most 300 executions and about 700 logged lines each
     shards, cur, lines = [], [], 0
     for i in idx:
         w = len(logs[i]) + (len(twins[i]) if twins and twins[i] else 0)
-        if cur and (len(cur) >= 300 or lines + w > 2500):
+        if cur and (len(cur) >= 300 or lines + w > 700):
             shards.append(cur)
             cur, lines = [], 0
         cur.append(i)
@@ -238,11 +238,11 @@ def validate(scns, logs, twins=None, *, parallel=10, stats=None, conformance=Tru
     for s in shards:
         data = data_traces([scns[i] for i in s], [logs[i] for i in s], [twins[i] for i in s] if twins else None)
         runs.append(dict(main="StoreObs", cfg="INIT Init\nNEXT Next\nINVARIANT Report\n", data=data,
-                         modules=["StoreObs", "StoreProps"], workers=1, allow_violation=False, timeout=1800))
+                         modules=["StoreObs", "StoreProps"], workers=1, allow_violation=False, timeout=1800, heap="5g"))
         if conformance:
             runs.append(dict(main="Store", cfg="INIT Init\nNEXT Next\nINVARIANT ReportAcc\nINVARIANT ReportPfx\n"
                                                "INVARIANT TypeOK\nINVARIANT UniqueEid\n", data=data,
-                             modules=["Store", "StoreProps"], workers=1, allow_violation=False, timeout=1800))
+                             modules=["Store", "StoreProps"], workers=1, allow_violation=False, timeout=1800, heap="5g"))
     if conformance and stats is not None:
         # per-action counts from a small separate run (coverage instrumentation of a large data module is too costly)
         few = idx[:: max(1, n // 40)][:40]
